@@ -162,7 +162,7 @@ func c18NewPeerRig(nhosts, ngroups int) *c18PeerRig {
 }
 
 func c18NewPeerRigSpecs(specs []string) *c18PeerRig {
-	nop := zerolog.Nop()
+	nop := lib.DiscardLog()
 	r := &c18PeerRig{srv: p2p.VerifNewServer(c18BanTicks*c18Tick, &nop), st: p2p.VerifNewPeerState(), groupIdx: map[string]int{}, keyIdx: map[string]int{},
 		peers: map[string]*c18RigPeer{}, banEnd: map[int]int{}, port: 20000, valid: true, specs: specs}
 	// host and group indices are fixed up front so that they do not depend on the history:
@@ -226,7 +226,7 @@ func (r *c18PeerRig) newPeerWith(handle, kind string, host int, vk bool, script 
 	addr := net.JoinHostPort(spec, strconv.Itoa(r.port))
 	lb := &bytes.Buffer{}
 	lg := zerolog.New(lb).Level(zerolog.DebugLevel)
-	nop := zerolog.Nop()
+	nop := lib.DiscardLog()
 	seen := make(chan struct{}, 4)
 	rp := &c18RigPeer{handle: handle, kind: kind, host: host, vk: vk, logbuf: lb}
 	cfg := &peer.Config{
@@ -549,7 +549,7 @@ func (r *c18PeerRig) run(c *Ctx, ops []string, o *c18Oracle) ([]c18PeerStepOut, 
 			}
 		case "addbad":
 			nbad++
-			nop := zerolog.Nop()
+			nop := lib.DiscardLog()
 			lb := &bytes.Buffer{}
 			lg := zerolog.New(lb).Level(zerolog.DebugLevel)
 			bp := peer.NewInboundPeer(&peer.Config{Log: &nop, ChainParams: &chaincfg.MainNetParams})
@@ -588,7 +588,7 @@ func (r *c18PeerRig) run(c *Ctx, ops []string, o *c18Oracle) ([]c18PeerStepOut, 
 			}
 			host := r.keyIdx[r.specs[spec]]
 			// handleBanPeerMsg takes a *peer.Peer and reads only its address
-			bp, err := peer.NewOutboundPeer(&peer.Config{Log: func() *zerolog.Logger { l := zerolog.Nop(); return &l }(), ChainParams: &chaincfg.MainNetParams}, net.JoinHostPort(r.specs[spec], "8333"))
+			bp, err := peer.NewOutboundPeer(&peer.Config{Log: func() *zerolog.Logger { l := lib.DiscardLog(); return &l }(), ChainParams: &chaincfg.MainNetParams}, net.JoinHostPort(r.specs[spec], "8333"))
 			if err != nil {
 				return out, err
 			}
@@ -807,7 +807,7 @@ func c18RunPeerHistory(c *Ctx, l *lib.Lean, h c18PeerHistory) error {
 
 // c18RealTimeBan: the ban window once against the real clock (no clock shifting): 40 ms ban.
 func c18RealTimeBan(c *Ctx) error {
-	nop := zerolog.Nop()
+	nop := lib.DiscardLog()
 	r := c18NewPeerRig(2, 2)
 	defer r.closeAll()
 	r.srv = p2p.VerifNewServer(40*time.Millisecond, &nop)
